@@ -323,6 +323,13 @@ class Proc:
 
 
 def do_op(P: Proc, op: dict) -> dict:
+    out = _do_op(P, op)
+    if isinstance(out.get("digest"), dict):
+        out["digest"]["process_settings_after"] = model.process_settings()
+    return out
+
+
+def _do_op(P: Proc, op: dict) -> dict:
     """Execute one operation in P; returns {'digest': … , 'extra': …}. Exceptions of the *system* are part of
     the digest (type only); injected BaseExceptions propagate to the caller."""
     pool = P.pool
